@@ -102,7 +102,7 @@ func C09(r *drv.Run) {
 	if !quick(r) {
 		nprog, ntext = 250000, 12
 	}
-	r.Rule = "replace commands through RunFiles in the modes that write (NEW, OVERWRITE) and NOTHING: ten fixed commands whose replacement comes to nothing for all or some matches (a name defined nowhere, an unbound optional capture, a named loop, empty strings, a transform returning the empty string) and generated replace commands with mixed with-lists, on files holding their own sampled texts; numbers of 10..31 digits in twenty places (the sources C08 compiles) and skip/take pairs whose sum leaves the 64-bit range, RUN on the hostile texts; RunFiles processing file NAMES (its third argument) with eleven find/replace programs over eleven hostile names, listed and as a directory argument, in every mode (one two-command program re-observes known finding K5); five programs that reach debug statements (in transforms, predicates, loops, both branches of an if) while the standard output of the process is /dev/full (every write fails); RunFiles over 300..700 files in one call (listed and as a directory argument, an empty file and a sub-directory among them, one and three commands, every mode) and 600 calls in one process, while the process may hold 256 file descriptors at a time; every backslash escape of the regex sub-language (all 93 printable characters after the backslash) in eleven kinds of place, run when accepted; accepted programs from every generator (core, regex, named loops, whole-*, amount clauses, replace), the hand corpus and repository examples, one-token mutants of those that still compile (empty bodies, exactly 0, odd-but-legal shapes) and terminating transforms/predicates doing arithmetic on the match text; inputs: empty, program-derived matches and every kind of prefix/edit (input ends inside every construct), bytes >= 0x80, \\r\\n, fixed hostile texts; plus RunFiles on empty and tiny files; plus linear-time find/replace programs (literals, classes, amount clauses, a transform building a 5 000-byte replacement) over inputs of 4 097 .. 140 000 bytes with no, one or several far-apart matches, through Run and through RunFiles in every mode; plus RunFiles on directory arguments (it searches the files inside) with legal but unusual names - ending in a backslash, with blanks, named like a file, given with and without a trailing slash, empty, holding a sub-directory. Monitor: panic / fatal error / CPU or heap guard in Run or RunFiles. Non-trivial = the run executed >= 1 VM instruction on a non-empty input or ran on the empty input; distinct by (program, input)."
+	r.Rule = "caseless literals (27 of them, in eight kinds of command) on texts holding the characters whose case mapping changes their UTF-8 length or has no partner of equal length (U+0130, U+0131, U+212A, U+212B, U+017F, U+1E9E, sharp s, ligatures, final sigma ...): every run returns; replace commands through RunFiles in the modes that write (NEW, OVERWRITE) and NOTHING: ten fixed commands whose replacement comes to nothing for all or some matches (a name defined nowhere, an unbound optional capture, a named loop, empty strings, a transform returning the empty string) and generated replace commands with mixed with-lists, on files holding their own sampled texts; numbers of 10..31 digits in twenty places (the sources C08 compiles) and skip/take pairs whose sum leaves the 64-bit range, RUN on the hostile texts; RunFiles processing file NAMES (its third argument) with eleven find/replace programs over eleven hostile names, listed and as a directory argument, in every mode (one two-command program re-observes known finding K5); five programs that reach debug statements (in transforms, predicates, loops, both branches of an if) while the standard output of the process is /dev/full (every write fails); RunFiles over 300..700 files in one call (listed and as a directory argument, an empty file and a sub-directory among them, one and three commands, every mode) and 600 calls in one process, while the process may hold 256 file descriptors at a time; every backslash escape of the regex sub-language (all 93 printable characters after the backslash) in eleven kinds of place, run when accepted; accepted programs from every generator (core, regex, named loops, whole-*, amount clauses, replace), the hand corpus and repository examples, one-token mutants of those that still compile (empty bodies, exactly 0, odd-but-legal shapes) and terminating transforms/predicates doing arithmetic on the match text; inputs: empty, program-derived matches and every kind of prefix/edit (input ends inside every construct), bytes >= 0x80, \\r\\n, fixed hostile texts; plus RunFiles on empty and tiny files; plus linear-time find/replace programs (literals, classes, amount clauses, a transform building a 5 000-byte replacement) over inputs of 4 097 .. 140 000 bytes with no, one or several far-apart matches, through Run and through RunFiles in every mode; plus RunFiles on directory arguments (it searches the files inside) with legal but unusual names - ending in a backslash, with blanks, named like a file, given with and without a trailing slash, empty, holding a sub-directory. Monitor: panic / fatal error / CPU or heap guard in Run or RunFiles. Non-trivial = the run executed >= 1 VM instruction on a non-empty input or ran on the empty input; distinct by (program, input)."
 	r.Assumptions = []string{
 		"scope as stated: process code terminates (generated loops carry an incrementing counter), subroutines consume before recursing",
 		"a case exceeding the VM step budget is skipped (termination is C10's claim); a CPU/heap guard trip outside the VM is a violation",
@@ -198,6 +198,7 @@ func C09(r *drv.Run) {
 	c09Dirs(r, filesDir)
 	c09Many(r, filesDir)
 	c09Modes(r, filesDir)
+	c09Fold(r)
 	c09Stdout(r)
 	c09Filenames(r, filesDir)
 	r.Exec(total, drv.ExecOpts{Batch: 200}, func(i int) *drv.Item {
